@@ -136,7 +136,12 @@ def _parse_xml_string(xml_string, parser, charset=None):
 
 # see http://www.w3.org/TR/2000/NOTE-SOAP-20000508/
 # section 5.2.1 for an example of how the id and href attributes are used.
-def resolve_hrefs(element, xmlids):
+def resolve_hrefs(element, xmlids, _resolving=None):
+    # the elements whose references are being followed: a reference into one of
+    # them would never end.
+    if _resolving is None:
+        _resolving = []
+
     for e in element:
         if e.get('id'):
             continue # don't need to resolve this element
@@ -146,7 +151,13 @@ def resolve_hrefs(element, xmlids):
             if resolved_element is None:
                 raise Fault('Client.SoapError', "The href %r does not refer to "
                                     "an element of the message." % e.get('href'))
-            resolve_hrefs(resolved_element, xmlids)
+            if any(resolved_element is r for r in _resolving):
+                raise Fault('Client.SoapError', "The href %r refers to an "
+                               "element that contains it." % e.get('href'))
+
+            _resolving.append(resolved_element)
+            resolve_hrefs(resolved_element, xmlids, _resolving)
+            _resolving.pop()
 
             # copies the attributes
             [e.set(k, v) for k, v in resolved_element.items()]
@@ -158,7 +169,7 @@ def resolve_hrefs(element, xmlids):
             e.text = resolved_element.text
 
         else:
-            resolve_hrefs(e, xmlids)
+            resolve_hrefs(e, xmlids, _resolving)
 
     return element
 
